@@ -222,6 +222,9 @@ Hypothesis cfg_ok : version_parse (Some (c_model_version c)) <> None.
 Definition core tid := core_list c app loom pid tid.
 Definition has_req (fs : fields) := exists r, pget fs [k_ovni; k_require] = Some (jobj r).
 Definition unfinished (fs : fields) := pget fs [k_ovni; k_finished] = None.
+(* only ovni_thread_free sets these *)
+Definition pristine (fs : fields) :=
+  pget fs [k_ovni; k_rank] = None /\ pget fs [k_ovni; k_nranks] = None /\ pget fs [k_ovni; k_loom_cpus] = None.
 Definition complete (tid : Z) (j : json) :=
   exists fs, j = jobj fs /\ holds fs (core tid) /\ has_req fs /\ pget fs [k_ovni; k_finished] = Some (jnum 1).
 
@@ -258,7 +261,7 @@ Proof. reflexivity. Qed.
 (* ovni_thread_init: the tree stored and the tree kept *)
 Lemma init_trees s tid : st_app s = app -> st_loom s = loom -> st_pid s = pid ->
   exists fs0 fs1, populate c s tid = Some fs0 /\ require_tree fs0 k_ovni (c_model_version c) = Some fs1 /\
-    holds fs1 (core tid) /\ has_req fs1 /\ unfinished fs1 /\ nofin (jobj fs0).
+    holds fs1 (core tid) /\ has_req fs1 /\ unfinished fs1 /\ nofin (jobj fs0) /\ pristine fs1.
 Proof.
   destruct s as [pr a l p ts]. cbn [st_app st_loom st_pid]. intros -> -> ->.
   eexists. eexists. split; [vm_compute; reflexivity|].
@@ -266,7 +269,7 @@ Proof.
   split; [vm_compute; reflexivity|].
   split; [repeat constructor|].
   split; [eexists; reflexivity|].
-  split; reflexivity.
+  split; [reflexivity|]. split; [reflexivity|]. repeat split.
 Qed.
 
 Lemma holds_ovni_obj fs tid : holds fs (core tid) -> pget fs [k_ovni; k_part] = Some (jstr k_thread).
@@ -274,11 +277,11 @@ Proof. intros H. inversion H as [|? ? _ H2]; subst. inversion H2; subst. assumpt
 
 (* ovni_thread_require by a live thread with a well-formed model and version *)
 Lemma require_ok fs tid m v :
-  holds fs (core tid) -> has_req fs -> unfinished fs ->
+  holds fs (core tid) -> has_req fs -> unfinished fs -> pristine fs ->
   live_op_ok (Require m v) = true ->
-  exists fs', require_tree fs m v = Some fs' /\ holds fs' (core tid) /\ has_req fs' /\ unfinished fs'.
+  exists fs', require_tree fs m v = Some fs' /\ holds fs' (core tid) /\ has_req fs' /\ unfinished fs' /\ pristine fs'.
 Proof.
-  intros H (r & R) U L. unfold live_op_ok in L.
+  intros H (r & R) U (Q1 & Q2 & Q3) L. unfold live_op_ok in L.
   apply andb_prop in L as [_ L]. apply andb_prop in L as [L L4]. apply andb_prop in L as [L L3].
   apply andb_prop in L as [L1 L2].
   unfold require_tree.
@@ -287,25 +290,27 @@ Proof.
   destruct (version_parse (Some v)); [|discriminate].
   destruct (128 <=? 13 + Z.of_nat (length m)) eqn:E2; [lia|].
   destruct (pset3_some fs k_ovni k_require m r (jstr v) R) as (fs' & P).
-  exists fs'. split; [exact P|]. split; [|split].
+  exists fs'. split; [exact P|]. split; [|split; [|split]].
   - eapply holds_pset; [exact P| |exact H]. divs.
   - apply (pset_prefix_object [k_ovni; k_require] m fs (jstr v) fs'); [discriminate|exact P].
   - unfold unfinished. erewrite pset_pget_other; [exact U|exact P|]. repeat div1.
+  - repeat split; (erewrite pset_pget_other; [eassumption|exact P|]; repeat div1).
 Qed.
 
 (* a user attribute leaves the reserved part alone *)
 Lemma attr_ok fs tid k v fs' :
-  holds fs (core tid) -> has_req fs -> unfinished fs ->
+  holds fs (core tid) -> has_req fs -> unfinished fs -> pristine fs ->
   user_key k = true -> attr_set fs k v = Some fs' ->
-  holds fs' (core tid) /\ has_req fs' /\ unfinished fs'.
+  holds fs' (core tid) /\ has_req fs' /\ unfinished fs' /\ pristine fs'.
 Proof.
-  intros H (r & R) U K P. unfold user_key, attr_set, dotset in *.
+  intros H (r & R) U (Q1 & Q2 & Q3) K P. unfold user_key, attr_set, dotset in *.
   destruct (split_dots k) as [|a rest]; [discriminate|].
   destruct (str_dec a k_ovni) as [|N1]; [discriminate|]. destruct (str_dec a k_version) as [|N2]; [discriminate|].
-  split; [|split].
+  split; [|split; [|split]].
   - eapply holds_pset; [exact P| |exact H]. forall_list; apply div_here; congruence.
   - exists r. erewrite pset_pget_other; [exact R|exact P|]. apply div_here; congruence.
   - unfold unfinished. erewrite pset_pget_other; [exact U|exact P|]. apply div_here; congruence.
+  - repeat split; (erewrite pset_pget_other; [eassumption|exact P|]; apply div_here; congruence).
 Qed.
 
 (* a step of ovni_thread_free's tree updates: "ovni.<x>" for x outside the core keeps everything else *)
@@ -350,14 +355,74 @@ Proof.
   exists f. split; [exact P|]. exists f. auto.
 Qed.
 
+(* ------------------------------------------------------------------ what ovni_thread_free adds, read back by the merge *)
+Lemma cpus_roundtrip cs : all_some (map cpu_of_json (map cpu_json cs)) = Some cs.
+Proof.
+  induction cs as [|[i p] r IH]; [reflexivity|].
+  cbn [map]. change (cpu_of_json (cpu_json (i, p))) with (Some (i, p)). cbn [all_some]. rewrite IH. reflexivity.
+Qed.
+
+(* On the tree of a live thread in which rank, nranks and loom_cpus are still unset (only ovni_thread_free sets
+   them; user attributes cannot, C02_user_attr_keeps_reserved), the store of ovni_thread_free reads back, through
+   the emulator's look-ups, as exactly the identity of the thread, the rank set by this thread and the CPUs this
+   thread registered, in order. *)
+Lemma free_tree_stream_meta t tid :
+  holds (t_meta t) (core tid) -> has_req (t_meta t) ->
+  pget (t_meta t) [k_ovni; k_rank] = None -> pget (t_meta t) [k_ovni; k_nranks] = None ->
+  pget (t_meta t) [k_ovni; k_loom_cpus] = None ->
+  exists fs', free_tree t = Some fs' /\
+    to_stream_meta (jobj fs') =
+    Some (smeta loom pid tid app (t_rank t) (t_cpus t)) /\ complete tid (jobj fs').
+Proof.
+  intros H R N1 N2 N3. unfold free_tree, smeta.
+  assert (S1 : exists fs1, (match t_rank t with
+                            | Some (r, n) => psets (t_meta t) [([k_ovni; k_rank], jnum r); ([k_ovni; k_nranks], jnum n)]
+                            | None => Some (t_meta t) end) = Some fs1 /\ holds fs1 (core tid) /\ has_req fs1 /\
+                           pget fs1 [k_ovni; k_loom_cpus] = None /\
+                           pget fs1 [k_ovni; k_rank] = (match t_rank t with Some (r, _) => Some (jnum r) | None => None end) /\
+                           pget fs1 [k_ovni; k_nranks] = (match t_rank t with Some (_, n) => Some (jnum n) | None => None end)).
+  { destruct (t_rank t) as [[r n]|]; [|exists (t_meta t); auto 10].
+    destruct (free_step (t_meta t) tid k_rank (jnum r) H R) as (f1 & P1 & H1 & R1 & O1 & G1); try kneq.
+    destruct (free_step f1 tid k_nranks (jnum n) H1 R1) as (f2 & P2 & H2 & R2 & O2 & G2); try kneq.
+    exists f2. cbn [psets]. rewrite P1, P2. split; [reflexivity|]. split; [exact H2|]. split; [exact R2|].
+    split; [rewrite O2 by kneq; rewrite O1 by kneq; exact N3|].
+    split; [rewrite O2 by kneq; exact G1|exact G2]. }
+  destruct S1 as (fs1 & -> & H1 & R1 & C1 & K1 & K2).
+  assert (S2 : exists fs2, (match t_cpus t with
+                            | [] => Some fs1
+                            | _ :: _ => pset fs1 [k_ovni; k_loom_cpus] (jarr (map cpu_json (t_cpus t))) end) = Some fs2
+                           /\ holds fs2 (core tid) /\ has_req fs2 /\
+                           pget fs2 [k_ovni; k_rank] = pget fs1 [k_ovni; k_rank] /\
+                           pget fs2 [k_ovni; k_nranks] = pget fs1 [k_ovni; k_nranks] /\
+                           pget fs2 [k_ovni; k_loom_cpus] =
+                             (match t_cpus t with [] => None | _ :: _ => Some (jarr (map cpu_json (t_cpus t))) end)).
+  { destruct (t_cpus t) as [|x l]; [exists fs1; auto 10|].
+    destruct (free_step fs1 tid k_loom_cpus (jarr (map cpu_json (x :: l))) H1 R1) as (f & P & H2 & R2 & O & G); try kneq.
+    exists f. split; [exact P|]. split; [exact H2|]. split; [exact R2|].
+    split; [apply O; kneq|]. split; [apply O; kneq|exact G]. }
+  destruct S2 as (fs2 & -> & H2 & R2 & K3 & K4 & C2).
+  destruct (free_step fs2 tid k_finished (jnum 1) H2 R2) as (f & P & H3 & R3 & O & G); try kneq.
+  exists f. split; [exact P|]. split; [|exists f; auto].
+  unfold holds, core, core_list in H3.
+  repeat match goal with A : Forall _ (_ :: _) |- _ => inversion A; clear A; subst end.
+  cbn [fst snd] in *.
+  unfold to_stream_meta.
+  rewrite (O k_loom_cpus) by kneq. rewrite (O k_rank) by kneq. rewrite (O k_nranks) by kneq.
+  rewrite C2, K3, K4, K1, K2.
+  repeat match goal with A : pget f _ = _ |- _ => rewrite A; clear A end.
+  destruct (t_rank t) as [[r n]|]; destruct (t_cpus t) as [|x l]; cbn [num_of]; try reflexivity;
+    rewrite cpus_roundtrip; reflexivity.
+Qed.
+
 (* ------------------------------------------------------------------ the state machine *)
 Definition live_ok (t : thread) (tid : Z) : Prop :=
   t_ready t = true /\ t_finished t = false /\ t_tid t = tid /\
-  holds (t_meta t) (core tid) /\ has_req (t_meta t) /\ unfinished (t_meta t).
+  holds (t_meta t) (core tid) /\ has_req (t_meta t) /\ unfinished (t_meta t) /\ pristine (t_meta t).
 Definition wr_live (ws : list (Z * json)) (tid : Z) : Prop :=
   writes_for ws tid <> [] /\ Forall nofin (writes_for ws tid).
-Definition wr_done (ws : list (Z * json)) (tid : Z) : Prop :=
-  exists earlier last, writes_for ws tid = earlier ++ [last] /\ earlier <> [] /\ Forall nofin earlier /\ complete tid last.
+Definition wr_done (t : thread) (ws : list (Z * json)) (tid : Z) : Prop :=
+  exists earlier last, writes_for ws tid = earlier ++ [last] /\ earlier <> [] /\ Forall nofin earlier /\ complete tid last /\
+    to_stream_meta last = Some (smeta loom pid tid app (t_rank t) (t_cpus t)).
 Definition known (ps : pstate) (tid : Z) : bool := existsb (fun e => fst (snd e) =? tid) ps.
 
 Record Inv (s : state) (ws : list (Z * json)) (ps : pstate) : Prop := mkInv {
@@ -365,7 +430,8 @@ Record Inv (s : state) (ws : list (Z * json)) (ps : pstate) : Prop := mkInv {
   i_none : forall th, plook ps th = None -> tget (st_threads s) th = thread0;
   i_live : forall th tid, plook ps th = Some (tid, false) -> live_ok (tget (st_threads s) th) tid /\ wr_live ws tid;
   i_done : forall th tid, plook ps th = Some (tid, true) ->
-           t_finished (tget (st_threads s) th) = true /\ t_ready (tget (st_threads s) th) = false /\ wr_done ws tid;
+           t_finished (tget (st_threads s) th) = true /\ t_ready (tget (st_threads s) th) = false /\
+           wr_done (tget (st_threads s) th) ws tid;
   i_tids : forall th1 th2 tid f1 f2, plook ps th1 = Some (tid, f1) -> plook ps th2 = Some (tid, f2) -> th1 = th2;
   i_ws : forall w, In w ws -> known ps (fst w) = true
 }.
@@ -462,7 +528,8 @@ Proof.
   - (* freed thread: nothing is allowed *)
     destruct o; discriminate.
   - (* live thread *)
-    destruct (i_live _ _ _ I th tid PL) as ((Hr & Hf & Ht & Hh & Hq & Hu) & WL).
+    destruct (i_live _ _ _ I th tid PL) as ((Hr & Hf & Ht & Hh & Hq & Hu & Hp) & WL).
+    pose proof Hp as (Hp1 & Hp2 & Hp3).
     assert (LIVE : live_ok (tget (st_threads s) th) tid) by (repeat split; assumption).
     destruct o; try discriminate;
       try (destruct (live_op_ok _) eqn:LO in CS; [|discriminate]; injection CS as <-;
@@ -478,25 +545,25 @@ Proof.
       cbn [wopt]. rewrite app_nil_r. eapply inv_upd; eauto. repeat split; assumption.
     + (* Require *)
       rewrite Hr. cbn [negb].
-      destruct (require_ok _ tid model version Hh Hq Hu LO) as (fs' & -> & H1 & H2 & H3).
+      destruct (require_ok _ tid model version Hh Hq Hu Hp LO) as (fs' & -> & H1 & H2 & H3 & (H4 & H5 & H6)).
       right. do 3 eexists. split; [reflexivity|]. split; [|exact Logic.I].
       cbn [wopt]. rewrite app_nil_r. eapply inv_upd; eauto. repeat split; assumption.
     + (* AttrSetStr *)
       unfold attr_store, attr_gate. rewrite Hr, Hf. cbn [negb andb].
       destruct (attr_set _ key (jstr v)) as [fs'|] eqn:A; [|left; split; reflexivity].
-      destruct (attr_ok _ tid _ _ _ Hh Hq Hu LO' A) as (H1 & H2 & H3).
+      destruct (attr_ok _ tid _ _ _ Hh Hq Hu Hp LO' A) as (H1 & H2 & H3 & (H4 & H5 & H6)).
       right. do 3 eexists. split; [reflexivity|]. split; [|exact Logic.I].
       cbn [wopt]. rewrite app_nil_r. eapply inv_upd; eauto. repeat split; assumption.
     + (* AttrSetDouble *)
       unfold attr_store, attr_gate. rewrite Hr, Hf. cbn [negb andb].
       destruct (attr_set _ key (jnum v)) as [fs'|] eqn:A; [|left; split; reflexivity].
-      destruct (attr_ok _ tid _ _ _ Hh Hq Hu LO' A) as (H1 & H2 & H3).
+      destruct (attr_ok _ tid _ _ _ Hh Hq Hu Hp LO' A) as (H1 & H2 & H3 & (H4 & H5 & H6)).
       right. do 3 eexists. split; [reflexivity|]. split; [|exact Logic.I].
       cbn [wopt]. rewrite app_nil_r. eapply inv_upd; eauto. repeat split; assumption.
     + (* AttrSetBool *)
       unfold attr_store, attr_gate. rewrite Hr, Hf. cbn [negb andb].
       destruct (attr_set _ key (jbool b)) as [fs'|] eqn:A; [|left; split; reflexivity].
-      destruct (attr_ok _ tid _ _ _ Hh Hq Hu LO' A) as (H1 & H2 & H3).
+      destruct (attr_ok _ tid _ _ _ Hh Hq Hu Hp LO' A) as (H1 & H2 & H3 & (H4 & H5 & H6)).
       right. do 3 eexists. split; [reflexivity|]. split; [|exact Logic.I].
       cbn [wopt]. rewrite app_nil_r. eapply inv_upd; eauto. repeat split; assumption.
     + (* AttrSetJson *)
@@ -504,7 +571,7 @@ Proof.
       destruct (json_parses v); cbn [negb]; [|left; split; reflexivity].
       unfold attr_store, attr_gate. rewrite Hr, Hf. cbn [negb andb].
       destruct (attr_set _ key v) as [fs'|] eqn:A; [|left; split; reflexivity].
-      destruct (attr_ok _ tid _ _ _ Hh Hq Hu LO' A) as (H1 & H2 & H3).
+      destruct (attr_ok _ tid _ _ _ Hh Hq Hu Hp LO' A) as (H1 & H2 & H3 & (H4 & H5 & H6)).
       right. do 3 eexists. split; [reflexivity|]. split; [|exact Logic.I].
       cbn [wopt]. rewrite app_nil_r. eapply inv_upd; eauto. repeat split; assumption.
     + (* AttrHas *)
@@ -537,7 +604,7 @@ Proof.
     + (* ThreadFree *)
       injection CS as <-. unfold step. cbn [in_dom negb]. cbv beta iota zeta.
       rewrite Hf, Hr. cbn [negb].
-      destruct (free_tree_ok _ tid Hh Hq) as (fs' & -> & CO).
+      destruct (free_tree_stream_meta _ tid Hh Hq Hp1 Hp2 Hp3) as (fs' & -> & SM & CO).
       right. do 3 eexists. split; [reflexivity|]. rewrite Ht. cbn [wopt wprop]. split.
       * destruct I as [I1 I2 I3 I4 I5 I6 I7 I8 I9].
         constructor; try assumption.
@@ -552,7 +619,7 @@ Proof.
            ++ apply Nat.eqb_eq in E. subst th'. injection P' as <-. rewrite tget_tset_same. cbn [t_finished t_ready].
               split; [reflexivity|]. split; [reflexivity|].
               unfold wr_done. rewrite writes_for_app, Z.eqb_refl. destruct WL as (W1 & W2).
-              exists (writes_for ws tid), (jobj fs'). auto.
+              exists (writes_for ws tid), (jobj fs'). cbn [t_rank t_cpus]. auto 7.
            ++ assert (N : th' <> th) by (intros ->; rewrite Nat.eqb_refl in E; discriminate).
               rewrite tget_tset_other by exact N. destruct (I7 th' tid' P') as (A & B & W). split; [exact A|]. split; [exact B|].
               unfold wr_done. rewrite writes_for_app. destruct (tid =? tid') eqn:E2; [|exact W].
@@ -577,7 +644,7 @@ Proof.
     pose proof (i_none _ _ _ I th PL) as T0.
     unfold step. cbn [in_dom]. rewrite G1. cbn [negb]. cbv beta iota zeta. rewrite T0. cbn [thread0 t_ready t_finished].
     destruct (tid =? 0) eqn:E0; [lia|]. rewrite PR. cbn [negb].
-    destruct (init_trees s tid (i_app _ _ _ I) (i_loom _ _ _ I) (i_pid _ _ _ I)) as (fs0 & fs1 & -> & -> & H1 & H2 & H3 & H4).
+    destruct (init_trees s tid (i_app _ _ _ I) (i_loom _ _ _ I) (i_pid _ _ _ I)) as (fs0 & fs1 & -> & -> & H1 & H2 & H3 & H4 & (H5 & H6 & H7)).
     right. do 3 eexists. split; [reflexivity|]. cbn [wopt wprop]. split.
     + pose proof (writes_unknown ws ps tid (i_ws _ _ _ I) G3) as WN.
       destruct I as [I1 I2 I3 I4 I5 I6 I7 I8 I9].
@@ -609,6 +676,32 @@ Proof.
     + apply nofin_tag; [exact H4|discriminate].
 Qed.
 
+(* rthread.cpus and rthread.rank only change by ovni_add_cpu / ovni_proc_set_rank of that thread (the memset of
+   ovni_thread_init hits a thread that has neither) *)
+Ltac brk H :=
+  repeat match type of H with
+         | context [if ?b then _ else _] => destruct b eqn:?
+         | context [match ?x with _ => _ end] => destruct x eqn:?
+         end; try discriminate H.
+
+Lemma step_tracks s th o s' w obs :
+  step c s th o = ODone s' w obs ->
+  (forall tid, o = ThreadInit tid -> t_ready (tget (st_threads s) th) = false ->
+     t_cpus (tget (st_threads s) th) = [] /\ t_rank (tget (st_threads s) th) = None) ->
+  forall th', t_cpus (tget (st_threads s') th') = t_cpus (tget (st_threads s) th') ++ cpus_added [(th, o)] th' /\
+              t_rank (tget (st_threads s') th') = rank_step (t_rank (tget (st_threads s) th')) (th, o) th'.
+Proof.
+  intros H F th'. unfold step in H. destruct (in_dom o); cbn [negb] in H; [|discriminate].
+  unfold cpus_added, rank_step. cbn [flat_map fst snd List.app].
+  destruct o; unfold attr_store, attr_read in H; brk H; injection H as <- <- <-;
+    try (rewrite app_nil_r; split; reflexivity);
+    try (cbn [st_threads]; rewrite app_nil_r; split; reflexivity);
+    cbn [tset st_threads tget]; destruct (Nat.eqb th th') eqn:E;
+    try (apply Nat.eqb_eq in E; subst th'); cbn [t_cpus t_rank with_meta];
+    rewrite ?app_nil_r; try (split; reflexivity).
+  destruct (F tid eq_refl eq_refl) as (F1 & F2). rewrite F1, F2. split; reflexivity.
+Qed.
+
 (* the call at which a run stopped (aborted or left the modelled domain) *)
 Fixpoint stop_op (p : prog) (evs : list ev) : option op :=
   match p, evs with
@@ -616,10 +709,11 @@ Fixpoint stop_op (p : prog) (evs : list ev) : option op :=
   | _, _ => None
   end.
 
-Definition wstate (ws : list (Z * json)) (ps : pstate) : Prop :=
-  forall th tid f, plook ps th = Some (tid, f) -> if f then wr_done ws tid else wr_live ws tid.
+Definition wstate (s : state) (ws : list (Z * json)) (ps : pstate) : Prop :=
+  forall th tid f, plook ps th = Some (tid, f) ->
+    if f then wr_done (tget (st_threads s) th) ws tid else wr_live ws tid.
 
-Lemma inv_wstate s ws ps : Inv s ws ps -> wstate ws ps.
+Lemma inv_wstate s ws ps : Inv s ws ps -> wstate s ws ps.
 Proof.
   intros I th tid [|] P; [apply (i_done _ _ _ I th tid P)|apply (i_live _ _ _ I th tid P)].
 Qed.
@@ -627,21 +721,34 @@ Qed.
 Lemma writes_cons th o r w obs l : writes ((th, o) :: r) (EvOk w obs :: l) = wopt w ++ writes r l.
 Proof. unfold writes. cbn [tagged]. destruct w; reflexivity. Qed.
 
+Lemma init_fresh s ws ps th o ps1 tid :
+  Inv s ws ps -> conf_step ps th o = Some ps1 -> o = ThreadInit tid -> t_ready (tget (st_threads s) th) = false ->
+  t_cpus (tget (st_threads s) th) = [] /\ t_rank (tget (st_threads s) th) = None.
+Proof.
+  intros I CS -> NR. unfold conf_step in CS. destruct (plook ps th) as [[t0 [|]]|] eqn:PL; [discriminate| |].
+  - destruct (i_live _ _ _ I th t0 PL) as ((Hr & _) & _). congruence.
+  - rewrite (i_none _ _ _ I th PL). split; reflexivity.
+Qed.
+
 Lemma body_run : forall body s ws ps ps' thk evs sf,
   Inv s ws ps -> conf_body ps body = Some ps' ->
   run_from c s (body ++ [(thk, ProcFini)]) = (evs, sf) ->
   (forall o, stop_op (body ++ [(thk, ProcFini)]) evs = Some o -> is_attr_op o = true) /\
   (completed evs = true ->
    length evs = length (body ++ [(thk, ProcFini)]) /\
-   wstate (ws ++ writes (body ++ [(thk, ProcFini)]) evs) ps' /\
-   Forall tagprop (tagged (body ++ [(thk, ProcFini)]) evs)).
+   wstate sf (ws ++ writes (body ++ [(thk, ProcFini)]) evs) ps' /\
+   Forall tagprop (tagged (body ++ [(thk, ProcFini)]) evs) /\
+   forall th', t_cpus (tget (st_threads sf) th') = t_cpus (tget (st_threads s) th') ++ cpus_added body th' /\
+               t_rank (tget (st_threads sf) th') = rank_from (t_rank (tget (st_threads s) th')) body th').
 Proof.
   induction body as [|[th o] r IH]; intros s ws ps ps' thk evs sf I CB R.
   - cbn [conf_body] in CB. injection CB as <-. cbn [List.app run_from] in R.
     unfold step in R. cbn [in_dom negb] in R. rewrite (proc_ready_inv _ _ _ I) in R. injection R as <- <-.
     cbn [List.app stop_op ev_ok completed forallb]. split; [discriminate|]. intros _.
-    split; [reflexivity|]. split; [|constructor].
-    unfold writes. cbn [tagged map]. rewrite app_nil_r. eapply inv_wstate; eauto.
+    split; [reflexivity|]. split; [|split; [constructor|]].
+    + unfold writes. cbn [tagged map]. rewrite app_nil_r.
+      intros th tid f P. exact (inv_wstate _ _ _ I th tid f P).
+    + intros th'. cbn [st_threads]. unfold cpus_added, rank_from. cbn [flat_map fold_left]. rewrite app_nil_r. auto.
   - cbn [conf_body] in CB. destruct (conf_step ps th o) as [ps1|] eqn:CS; [|discriminate].
     change (((th, o) :: r) ++ [(thk, ProcFini)]) with ((th, o) :: (r ++ [(thk, ProcFini)])) in *.
     cbn [run_from] in R.
@@ -651,9 +758,14 @@ Proof.
     + destruct (run_from c s' (r ++ [(thk, ProcFini)])) as [l sf'] eqn:R'. injection R as <- <-.
       destruct (IH s' (ws ++ wopt w) ps1 ps' thk l sf' I' CB R') as (S & C).
       cbn [stop_op ev_ok completed forallb andb]. split; [exact S|].
-      intros CO. destruct (C CO) as (L & W & T). split; [cbn [length]; congruence|].
-      rewrite writes_cons, app_assoc. split; [exact W|].
-      cbn [tagged]. destruct w as [x|]; [constructor; [exact WP|exact T]|exact T].
+      intros CO. destruct (C CO) as (L & W & T & K). split; [cbn [length]; congruence|].
+      rewrite writes_cons, app_assoc. split; [exact W|]. split.
+      * cbn [tagged]. destruct w as [x|]; [constructor; [exact WP|exact T]|exact T].
+      * intros th'. destruct (K th') as (K1 & K2).
+        destruct (step_tracks s th o s' w obs D (fun tid E N => init_fresh s ws ps th o ps1 tid I CS E N) th') as (T1 & T2).
+        rewrite K1, K2, T1, T2. split.
+        -- rewrite <- app_assoc. f_equal. unfold cpus_added. cbn [flat_map]. rewrite app_nil_r. reflexivity.
+        -- reflexivity.
 Qed.
 
 (* the protocol state after the body knows every initialised thread *)
@@ -730,7 +842,8 @@ Lemma metadata_complete_gen : forall c p evs sf,
    (* every thread's file ends complete *)
    forall th tid, In (th, ThreadInit tid) p ->
      0 < tid /\ exists earlier last, writes_for (writes p evs) tid = earlier ++ [last] /\ earlier <> [] /\
-       Forall nofin earlier /\ complete c app loom pid tid last).
+       Forall nofin earlier /\ complete c app loom pid tid last /\
+       to_stream_meta last = Some (smeta loom pid tid app (rank_set p th) (cpus_added p th))).
 Proof.
   intros c p evs sf CFG MC R.
   unfold meta_conformant in MC.
@@ -761,7 +874,7 @@ Proof.
   { constructor; try reflexivity; try (intros; discriminate). intros w []. }
   destruct (body_run c app loom pid CFG body _ [] [] psf thk l sf' I0 CB R') as (S & C).
   cbn [stop_op ev_ok completed forallb andb]. split; [exact S|].
-  intros CO. destruct (C CO) as (L & W & T).
+  intros CO. destruct (C CO) as (L & W & T & K).
   split; [cbn [length]; congruence|].
   rewrite writes_cons. cbn [wopt List.app tagged]. cbn [List.app] in W.
   split; [exact T|].
@@ -770,7 +883,13 @@ Proof.
   destruct (conf_body_inits body [] psf th tid CB X) as (f & P).
   pose proof (all_freed_true _ _ _ _ H P) as ->.
   specialize (W th tid true P). cbn in W.
-  destruct W as (earlier & last & E1 & E2 & E3 & E4).
+  destruct W as (earlier & last & E1 & E2 & E3 & E4 & E5).
+  destruct (K th) as (K1 & K2). cbn [st_threads tget thread0 t_cpus t_rank List.app] in K1, K2.
+  assert (C1 : cpus_added ((th0, ProcInit app loom pid) :: body ++ [(thk, ProcFini)]) th = cpus_added body th).
+  { unfold cpus_added. cbn [flat_map snd List.app]. rewrite flat_map_app. cbn [flat_map snd]. rewrite !app_nil_r. reflexivity. }
+  assert (C2 : rank_set ((th0, ProcInit app loom pid) :: body ++ [(thk, ProcFini)]) th = rank_from None body th).
+  { unfold rank_set, rank_from. cbn [fold_left]. rewrite fold_left_app. reflexivity. }
+  rewrite K1, K2 in E5. rewrite <- C1, <- C2 in E5.
   assert (TP : 0 < tid).
   { (* from conf_step of the init *) clear - CB X.
     revert CB X. generalize (@nil (nat * (Z * bool))). induction body as [|[th1 o1] r IH]; intros ps CB X; [destruct X|].
@@ -780,7 +899,7 @@ Proof.
     - unfold live_op_ok in CS. rewrite andb_false_r in CS. discriminate.
     - destruct (i32 tid && (0 <? tid) && negb (existsb (fun e => fst (snd e) =? tid) ps)) eqn:G; [|discriminate].
       apply andb_prop in G as [G _]. apply andb_prop in G as [_ G]. lia. }
-  split; [exact TP|]. exists earlier, last. auto.
+  split; [exact TP|]. exists earlier, last. auto 7.
 Qed.
 
 Theorem metadata_complete : forall c p evs sf,
@@ -799,7 +918,7 @@ Proof.
   intros c p evs sf CFG MC R.
   destruct (metadata_complete_gen c p evs sf CFG MC R) as (th0 & app & loom & pid & rest & E & A & P & S & H1 & H2).
   split; [exact H1|]. intros CO. destruct (H2 CO) as (L & T & W). split; [exact L|]. split; [exact T|].
-  intros th tid X. destruct (W th tid X) as (TP & earlier & last & E1 & E2 & E3 & E4).
+  intros th tid X. destruct (W th tid X) as (TP & earlier & last & E1 & E2 & E3 & E4 & E5).
   destruct (complete_meta_ok c app loom pid tid last E4) as (M1 & M2); try assumption.
   exists earlier, last. auto.
 Qed.
@@ -876,71 +995,40 @@ Proof.
   intros c p evs sf th0 app loom pid rest CFG MC R CO E th tid X.
   destruct (metadata_complete_gen c p evs sf CFG MC R) as (th0' & app' & loom' & pid' & rest' & E' & A & P & S & H1 & H2).
   rewrite E in E'. injection E' as <- <- <- <- <-.
-  destruct (H2 CO) as (L & T & W). destruct (W th tid X) as (TP & earlier & last & E1 & E2 & E3 & E4).
+  destruct (H2 CO) as (L & T & W). destruct (W th tid X) as (TP & earlier & last & E1 & E2 & E3 & E4 & E5).
   destruct (complete_identity c app loom pid tid last E4) as (I1 & I2 & I3 & I4 & I5 & I6).
   exists last. split.
   - unfold disk. rewrite E1, map_app. cbn [map]. apply last_last.
   - repeat split; try assumption; lia.
 Qed.
 
-(* ------------------------------------------------------------------ what ovni_thread_free adds, read back by the merge *)
-Lemma cpus_roundtrip cs : all_some (map cpu_of_json (map cpu_json cs)) = Some cs.
+
+(* ------------------------------------------------------------------ item 1: every final tree reads back as expected *)
+Lemma all_some_map {A B} (g : A -> option B) (h : A -> B) l :
+  (forall e, In e l -> g e = Some (h e)) -> all_some (map g l) = Some (map h l).
 Proof.
-  induction cs as [|[i p] r IH]; [reflexivity|].
-  cbn [map]. change (cpu_of_json (cpu_json (i, p))) with (Some (i, p)). cbn [all_some]. rewrite IH. reflexivity.
+  induction l as [|a l IH]; intros H; [reflexivity|].
+  cbn [map all_some]. rewrite (H a (or_introl eq_refl)), IH; [reflexivity|]. intros e X. apply H. right. exact X.
 Qed.
 
-(* On the tree of a live thread in which rank, nranks and loom_cpus are still unset (only ovni_thread_free sets
-   them; user attributes cannot, C02_user_attr_keeps_reserved), the store of ovni_thread_free reads back, through
-   the emulator's look-ups, as exactly the identity of the thread, the rank set by this thread and the CPUs this
-   thread registered, in order. *)
-Lemma free_tree_stream_meta c app loom pid t tid :
-  holds (t_meta t) (core c app loom pid tid) -> has_req (t_meta t) ->
-  pget (t_meta t) [k_ovni; k_rank] = None -> pget (t_meta t) [k_ovni; k_nranks] = None ->
-  pget (t_meta t) [k_ovni; k_loom_cpus] = None ->
-  exists fs', free_tree t = Some fs' /\
-    to_stream_meta (jobj fs') =
-    Some (MetaDefs.mkS loom pid tid (Some app)
-            (match t_rank t with Some (r, _) => Some r | None => None end)
-            (match t_rank t with Some (_, n) => Some n | None => None end)
-            (match t_cpus t with [] => None | _ :: _ => Some (t_cpus t) end)).
+Lemma in_inits p e : In e (inits p) -> In (fst e, ThreadInit (snd e)) p.
 Proof.
-  intros H R N1 N2 N3. unfold free_tree.
-  assert (S1 : exists fs1, (match t_rank t with
-                            | Some (r, n) => psets (t_meta t) [([k_ovni; k_rank], jnum r); ([k_ovni; k_nranks], jnum n)]
-                            | None => Some (t_meta t) end) = Some fs1 /\ holds fs1 (core c app loom pid tid) /\ has_req fs1 /\
-                           pget fs1 [k_ovni; k_loom_cpus] = None /\
-                           pget fs1 [k_ovni; k_rank] = (match t_rank t with Some (r, _) => Some (jnum r) | None => None end) /\
-                           pget fs1 [k_ovni; k_nranks] = (match t_rank t with Some (_, n) => Some (jnum n) | None => None end)).
-  { destruct (t_rank t) as [[r n]|]; [|exists (t_meta t); auto 10].
-    destruct (free_step c app loom pid (t_meta t) tid k_rank (jnum r) H R) as (f1 & P1 & H1 & R1 & O1 & G1); try kneq.
-    destruct (free_step c app loom pid f1 tid k_nranks (jnum n) H1 R1) as (f2 & P2 & H2 & R2 & O2 & G2); try kneq.
-    exists f2. cbn [psets]. rewrite P1, P2. split; [reflexivity|]. split; [exact H2|]. split; [exact R2|].
-    split; [rewrite O2 by kneq; rewrite O1 by kneq; exact N3|].
-    split; [rewrite O2 by kneq; exact G1|exact G2]. }
-  destruct S1 as (fs1 & -> & H1 & R1 & C1 & K1 & K2).
-  assert (S2 : exists fs2, (match t_cpus t with
-                            | [] => Some fs1
-                            | _ :: _ => pset fs1 [k_ovni; k_loom_cpus] (jarr (map cpu_json (t_cpus t))) end) = Some fs2
-                           /\ holds fs2 (core c app loom pid tid) /\ has_req fs2 /\
-                           pget fs2 [k_ovni; k_rank] = pget fs1 [k_ovni; k_rank] /\
-                           pget fs2 [k_ovni; k_nranks] = pget fs1 [k_ovni; k_nranks] /\
-                           pget fs2 [k_ovni; k_loom_cpus] =
-                             (match t_cpus t with [] => None | _ :: _ => Some (jarr (map cpu_json (t_cpus t))) end)).
-  { destruct (t_cpus t) as [|x l]; [exists fs1; auto 10|].
-    destruct (free_step c app loom pid fs1 tid k_loom_cpus (jarr (map cpu_json (x :: l))) H1 R1) as (f & P & H2 & R2 & O & G); try kneq.
-    exists f. split; [exact P|]. split; [exact H2|]. split; [exact R2|].
-    split; [apply O; kneq|]. split; [apply O; kneq|exact G]. }
-  destruct S2 as (fs2 & -> & H2 & R2 & K3 & K4 & C2).
-  destruct (free_step c app loom pid fs2 tid k_finished (jnum 1) H2 R2) as (f & P & H3 & R3 & O & G); try kneq.
-  exists f. split; [exact P|].
-  unfold holds, core, core_list in H3.
-  repeat match goal with A : Forall _ (_ :: _) |- _ => inversion A; clear A; subst end.
-  cbn [fst snd] in *.
-  unfold to_stream_meta.
-  rewrite (O k_loom_cpus) by kneq. rewrite (O k_rank) by kneq. rewrite (O k_nranks) by kneq.
-  rewrite C2, K3, K4, K1, K2.
-  repeat match goal with A : pget f _ = _ |- _ => rewrite A; clear A end.
-  destruct (t_rank t) as [[r n]|]; destruct (t_cpus t) as [|x l]; cbn [num_of]; try reflexivity;
-    rewrite cpus_roundtrip; reflexivity.
+  unfold inits. rewrite in_flat_map. intros ([th o] & X & Y). cbn [fst snd] in Y.
+  destruct o; try contradiction. destruct Y as [<-|[]]. exact X.
+Qed.
+
+Theorem metadata_stream_metas : forall c p evs sf,
+  version_parse (Some (c_model_version c)) <> None ->
+  meta_conformant p = true -> run c p = (evs, sf) -> completed evs = true ->
+  final_metas p evs = Some (expected_metas p).
+Proof.
+  intros c p evs sf CFG MC R CO.
+  destruct (metadata_complete_gen c p evs sf CFG MC R) as (th0 & app & loom & pid & rest & E & A & P & S & H1 & H2).
+  destruct (H2 CO) as (L & T & W).
+  assert (EX : expected_metas p = map (fun e => smeta loom pid (snd e) app (rank_set p (fst e)) (cpus_added p (fst e))) (inits p)).
+  { unfold expected_metas. rewrite E at 1. reflexivity. }
+  rewrite EX. unfold final_metas, finals. rewrite map_map.
+  apply all_some_map. intros e X. apply in_inits in X.
+  destruct (W (fst e) (snd e) X) as (TP & earlier & last & E1 & E2 & E3 & E4 & E5).
+  unfold disk. rewrite E1, map_app. cbn [map]. rewrite last_last. exact E5.
 Qed.
